@@ -239,6 +239,9 @@ class MapToMolecule(Processor):
 
             # we store the block together with the residue node
             meta_molecule.nodes[start_node]["graph"] = new_mol.copy()
+            for attribute, value in meta_molecule.nodes[start_node].items():
+                if attribute not in ["graph", "seqID"]:
+                    nx.set_node_attributes(meta_molecule.nodes[start_node]["graph"], value, attribute)
 
         # now we loop over the rest of the nodes
         for node in node_keys[1:]:
